@@ -98,3 +98,56 @@ PROPS["C09"] = {
     "outside": "operation sequences longer than 2; user-defined Object types; pre-existing mutable aliases",
     "stubs": COMMON_STUBS,
 }
+
+PROPS["C05"] = {
+    "level": "model_checking",
+    "harness": ["C05_"],
+    "tiers": {
+        "quick": {"timeout": "20s", "maxsteps": 40000000, "casecap": 40, "bounds": "every builtin x 0..2 arguments (0..3 for range/splice; first from U(1,2), others from an 8-shape lite universe); 15 binary operators x U(1,2) x lite; IndexGet/IndexSet/Iterate/Copy/String/Equals/Call on U(1,2) x lite; each call must end within 60k SSA steps and 64 symbolic decisions (operand sizes <= 3); 24 hostile programs (ill-typed ops, /0, runaway recursion, operand-stack exhaustion, mutation during iteration, builtin misuse, cyclic containers, range overflow) with symbolic int inputs through Compiled.RunContext under the cooperative scheduler", "cross": 1},
+        "thorough": {"timeout": "60s", "maxsteps": 40000000, "casecap": 40, "bounds": "as quick with U(1,3)", "cross": 2},
+    },
+    "reach": {"C05_Builtins": ["builtins"], "C05_Operators": ["operators"], "C05_Methods": ["methods"], "C05_RunContext": ["runcontext"]},
+    "replay_timeout": 40,
+    "assumptions": [
+        "bytes(N) is called with N <= 16 and range(a,b,step) with |b-a| <= 8: single allocations proportional to an argument are outside the claim; the step is unconstrained",
+        "'hang' = a single operation exceeds its unwinding bound of 60k SSA steps / 64 decisions (the native replay confirms with a wall-clock timeout); 'fatal' = Go call depth beyond 2500 interpreted frames (Go's unrecoverable stack overflow), deadlock, or a panic in a goroutine without recover",
+        "RunContext is executed with the real goroutine, channel, select, recover and deferred Unlock; the context is a harness-defined context.Context that is never cancelled (cancellation is C07)",
+        "String() of a symbolic float or time is skipped (strconv/time formatting loops)",
+    ],
+    "outside": "out-of-memory, concurrent map access and other fatal errors that are not stack overflow/deadlock; format() (C17); stdlib modules",
+    "stubs": COMMON_STUBS,
+}
+
+PROPS["C06"] = {
+    "level": "model_checking",
+    "harness": ["C06_"],
+    "tiers": {
+        "quick": {"timeout": "20s", "maxsteps": 12000000, "bounds": "MaxStringLen and MaxBytesLen symbolic in 0..12, operand lengths 0..4 (case split), 22 string/bytes-producing operations of the core language (+, string(), bytes(), slicing, format incl. width/*/x/X/q/v, literals, host input); allocation budget N symbolic int64 (full range) over 8 allocation programs with symbolic inputs, compared with the unlimited run and with a second budget N2 >= N; tracked-allocation count for N in 0..40; OpCall step from frame indexes {1,2,512,MaxFrames-2..MaxFrames} x stack pointers {1,2,1000,StackSize-3..StackSize}", "cross": 2},
+        "thorough": {"timeout": "60s", "maxsteps": 12000000, "bounds": "as quick", "cross": 3},
+    },
+    "reach": {"C06_StringLimits": ["ok", "limit-error"], "C06_AllocBudget": ["allocs"], "C06_AllocCount": ["count"], "C06_FrameStep": ["frame"]},
+    "assumptions": [
+        "which operations are tracked allocations is the VM's definition (the property is about the budget the VM tracks)",
+        "string contents are concrete ('a'*n): the limit checks compare lengths only",
+        "frame index and stack pointer of the OpCall step are boundary values (finite choice), not wide variables",
+    ],
+    "outside": "limits above 12, operand lengths above 4; stdlib text functions (not core language); type_name() returning fixed names longer than a tiny limit",
+    "stubs": COMMON_STUBS,
+}
+
+PROPS["C01"] = {
+    "level": "model_checking",
+    "harness": ["C01_"],
+    "tiers": {
+        "quick": {"timeout": "20s", "maxsteps": 12000000, "bounds": "out := a OP b for 19 binary operators x U(0,2) x 8-shape lite universe; 4 unary operators x U(1,2); 10 index/slice/selector read+write programs x U(1,2) with symbolic int (or lite) indices; 31 builtins x 0..2 arguments (3 for splice, range); 44 catalog + 9 failing programs with symbolic int/bool inputs; every run compared with the reference evaluator refsem (outcome class and every global)", "cross": 1},
+        "thorough": {"timeout": "60s", "maxsteps": 12000000, "bounds": "as quick with U(.,3)", "cross": 2},
+    },
+    "reach": {"C01_BinaryOps": ["binops"], "C01_UnaryOps": ["unops"], "C01_Indexing": ["indexing"], "C01_Builtins": ["builtins"], "C01_Catalog": ["catalog"]},
+    "assumptions": [
+        "oracle: package refsem (harness/refsem), an AST-walking evaluator written from docs/*.md (see refsem/NOTES.md for every decision where the documents are silent or inconsistent); it is validated natively against the real implementation on 1489 programs + operator/builtin matrices (go test ./refsem/) and is itself executed symbolically here",
+        "the right operand of * / % comes from a boundary set (symbolic-by-symbolic 64-bit multiply/divide stalls every solver back end); values that get rendered as decimal text (string + x, string(x), map index) come from boundary sets",
+        "error text is compared by class (prefix), not verbatim",
+    ],
+    "outside": "programs beyond the catalog; format() (C17); modules (C13); map iteration order, append capacity, cyclic containers, clock/random/OS (excluded by the property)",
+    "stubs": COMMON_STUBS,
+}
